@@ -3,7 +3,8 @@
    history from the same initial records. *)
 From Coq Require Import List ZArith NArith Bool.
 Require Import Mixin.Base.Res.
-Require Export Mixin.Model.RoundHash Mixin.Model.LiveRound Mixin.Model.RoundLinks.
+From Coq Require Export Uint63.
+Require Export Mixin.Model.RoundNum Mixin.Model.RoundHash Mixin.Model.LiveRound Mixin.Model.RoundLinks.
 Import ListNotations.
 Open Scope N_scope.
 
